@@ -18,9 +18,9 @@ import impl
 import lib
 
 COQ_TARGETS = ["theories/Model/GraphEq.vo", "theories/Proofs/GraphLemmas.vo", "theories/Proofs/GraphTermination.vo",
-               "theories/Proofs/TopoLemmas.vo"]
+               "theories/Proofs/TopoLemmas.vo", "theories/Proofs/GraphAcyclic.vo", "theories/Proofs/GraphWeight.vo"]
 THEOREMS = ["C09_terminates", "C09_order", "C09_flags", "C09_string_alias", "C09_denotes",
-            "C09_input_forms"]
+            "C09_input_forms", "C09_acyclic", "C09_acyclic_rank", "C09_terminates_closed"]
 FINDINGS = os.path.join(lib.VERIF, "findings.d", "C09.json")
 
 
